@@ -327,8 +327,11 @@ class Paraxial:
                 raise ValueError('Field type cannot be "object_height" for an '
                                  'object at infinity.')
 
-            y = -np.tan(np.radians(field_y)) * EPL
-            z = self.optic.surface_group.positions[1]
+            # start in front of the first surface, at a plane that can never
+            # coincide with the entrance pupil (u0 = (y1 - y0) / (EPL - z0))
+            z1 = self.optic.surface_group.positions[1]
+            z = z1 - (1 + np.abs(EPL - z1))
+            y = -np.tan(np.radians(field_y)) * (EPL - z)
 
             y0 = y1 + y
             z0 = np.ones_like(y1) * z
